@@ -110,7 +110,7 @@ class CompiledSimulation(object):
         self.block.sanity_check()
 
         if tracer is True:
-            tracer = SimulationTrace()
+            tracer = SimulationTrace(block=self.block)
         self.tracer = tracer
         self._remove_untraceable()
 
